@@ -3,7 +3,8 @@ from vlib import histories, snapshot, multi, cyclemech, gen_doc, gen_formula
 
 LEVEL = 'exploration'
 RULE = ('the same seeded history of user-action bundles (formula-heavy: reference chains, lookups, summaries, '
-        'PREVIOUS/NEXT/RANK, self and mutual references) is sent in lock step to K engine processes (3 quick / 6 thorough) '
+        'PREVIOUS/NEXT/RANK, self and mutual references; formula operands are preferably other formula columns and some '
+        'formulas catch exceptions around such an operand) is sent in lock step to K engine processes (3 quick / 6 thorough) '
         'that differ only in the seed of a permutation of the list returned by Engine._make_sorted_work_items (worker 0 keeps '
         'the engine\'s own order; "#lookup" items stay first as the engine requires). After every bundle: same '
         'success/failure, equal snapshots, equal multiset of cell writes / row additions / removals / schema actions in '
@@ -22,7 +23,8 @@ ASSUMPTIONS = ['volatile / side-effecting formulas (NOW/TODAY/RAND/UUID/REQUEST)
 REQUIRED = {'cross_worker_compares': {'quick': 600, 'thorough': 15000},
             'bundles_with_permuted_order': {'quick': 150, 'thorough': 2000},
             'distinct_orders_sum_over_histories': {'quick': 500, 'thorough': 6000}}
-SHARD_TIMEOUT = {'quick': 240, 'thorough': 1500}
+SHARD_TIMEOUT = {'quick': 300, 'thorough': 2400}
+TIMEOUT = 180.0    # seconds per engine call (watchdog => inconclusive); generous because the machine is shared
 
 WEIGHTS = {'add_formula_column': 14, 'modify_formula': 8, 'to_formula': 2, 'add_ref_column': 5, 'create_summary': 4,
            'update_summary': 1.5, 'update_records': 18, 'add_records': 14, 'remove_records': 6, 'modify_type': 3,
@@ -33,10 +35,10 @@ FLAGS = {'bundle_multi': 0.3, 'max_rows': 8, 'max_cols': 10}
 
 def plan(tier, seed):
   if tier == 'quick':
-    n, steps, k = 16, 40, 3
+    n, steps, k = 15, 40, 3      # 15 histories + the witness shard = 16 shards
   else:
     n, steps, k = 96, 50, 6
-  return [{'witness': 'caught_cycle_error'}, {'witness': 'lookup_cycle'}] + \
+  return [{'witness': 'both'}] + \
          [{'hseed': seed * 100003 + 6000 + i, 'steps': steps, 'k': k} for i in range(n)]
 
 
@@ -175,7 +177,7 @@ def two_orders(formulas, orders, rows=2):
   from vlib.client import EngineProc
   out = []
   for order in orders:
-    with EngineProc() as p:
+    with EngineProc(timeout=TIMEOUT) as p:
       p.init_doc()
       p.call('verif_py', 'props.C06_inproc', 'set_fixed_order', ['T', order] if order else None)
       cols = [{'id': 'K', 'type': 'Int', 'isFormula': False}] + \
@@ -209,11 +211,16 @@ def witness_lookup_cycle(acc):
               'A = T.lookupOne(B=$K).id, B = $A')
 
 
+def witness_both(acc):
+  witness_caught_cycle_error(acc)
+  witness_lookup_cycle(acc)
+
+
 def run_shard(spec, acc):
   if spec.get('witness'):
     return globals()['witness_' + spec['witness']](acc)
   k = spec['k']
   seeds = [0] + [spec['hseed'] * 31 + 7 * j + 1 for j in range(1, k)]
-  h = OrderHistory(acc, spec['hseed'], [{} for _ in range(k)], spec['steps'], weights=WEIGHTS, flags=FLAGS,
+  h = OrderHistory(acc, spec['hseed'], [{'timeout': TIMEOUT} for _ in range(k)], spec['steps'], weights=WEIGHTS, flags=FLAGS,
                    order_seeds=seeds, gen_cls=OrderGen)
   h.run()
